@@ -26,7 +26,7 @@ LEVEL = "exploration"
 SHARDS = {"quick": 8, "thorough": 16}
 CPU_LIMIT = 60.0
 RULE = (
-    "catalogue of 17 cycle shapes x length 1-4 x 1-4 files x drawn embedding (extra declarations, file order, "
+    "catalogue of 19 cycle shapes x length 1-4 x 1-4 files x drawn embedding (extra declarations, file order, "
     "variant of the linking statement); every positional method at every identifier of every file, diagnostics on "
     "open/save, start-up indexing.  Quick tier: full catalogue x lengths 1-2 enumerated plus drawn embeddings; "
     "thorough: lengths 1-4 x many embeddings.  Non-trivial = the queried identifier lies on the cycle; distinct by "
@@ -39,7 +39,7 @@ ASSUMPTIONS = [
 
 SHAPES = ["use", "extends", "submodule", "pointer-init", "associate", "select-type", "tbp-link", "proc-pointer",
           "fortran-include", "cpp-include", "component-type", "member-chain", "generic-interface", "use-rename",
-          "extends-tail", "proc-self-interface", "include-between-scopes"]
+          "extends-tail", "proc-self-interface", "include-between-scopes", "associate-graph", "pointer-graph"]
 
 
 def names(prefix, n):
@@ -169,6 +169,23 @@ def build(case):
         units.append(f"module cmod\n  implicit none\n{filler}{body}contains\n{impl}  subroutine use_it()\n" + "".join(f"    call {g}()\n" for g in gs)
                      + "  end subroutine use_it\nend module cmod\n")
         words |= set(gs)
+    elif shape in ("associate-graph", "pointer-graph"):
+        # every mapping name -> name over n names (n**n of them, chosen by case["graph"]): rings, self-loops, several names
+        # sharing one selector / target, chains running into a cycle
+        vs = names("cgr", n)
+        g = case.get("graph", v)
+        tgt = [vs[(g // (n ** i)) % n] for i in range(n)]
+        words |= set(vs)
+        if shape == "associate-graph":
+            pairs = ", ".join(f"{a} => {t}" for a, t in zip(vs, tgt))
+            outer = f"    integer :: {vs[-1]}\n" if v % 2 else ""
+            units.append(f"program cmain\n  implicit none\n{filler}  integer :: other\n  call sub()\ncontains\n  subroutine sub()\n{outer}    associate ({pairs})\n"
+                         + "".join(f"      other = {a} + {a}\n" for a in vs) + "    end associate\n  end subroutine sub\nend program cmain\n")
+        else:
+            typ = ["integer, pointer", "class(*), pointer", "type(ct), pointer"][v % 3]
+            decl = "".join(f"  {typ} :: {a} => {t}\n" for a, t in zip(vs, tgt))
+            units.append(f"module cmod\n  implicit none\n  type ct\n    integer :: q\n  end type ct\n{filler}{decl}contains\n  subroutine use_it()\n"
+                         + "".join(f"    {a} => {a}\n" for a in vs) + "  end subroutine use_it\nend module cmod\n")
     elif shape == "extends-tail":
         # an EXTENDS cycle of n types plus a chain of 1-2 types outside the cycle that extends into it; all of them bind
         # the same name (walks that start outside the cycle never come back to their start)
@@ -233,6 +250,7 @@ case_st = st.fixed_dictionaries({
     "extra": st.integers(0, 3),
     "reverse": st.booleans(),
     "open_first": st.integers(0, 3),
+    "graph": st.integers(0, 255),
 })
 
 
@@ -356,6 +374,15 @@ def run(ctx):
                             continue
                         case = {"shape": shape, "length": n, "nfiles": nf, "variant": v, "extra": 0, "reverse": False, "open_first": 0}
                         ctx.check(r.oracle(case), case)
+        # every mapping graph over 1-3 names (quick) / 1-4 names (thorough), both shapes
+        for shape in ("associate-graph", "pointer-graph"):
+            for n in ((1, 2, 3) if ctx.tier == "quick" else (1, 2, 3, 4)):
+                for g in range(n ** n):
+                    k += 1
+                    if k % ctx.nshards != ctx.shard:
+                        continue
+                    case = {"shape": shape, "length": n, "nfiles": 1, "variant": g % 2, "extra": 0, "reverse": False, "open_first": 0, "graph": g}
+                    ctx.check(r.oracle(case), case)
         ctx.hyp(case_st, r.oracle, max_examples=ctx.n(150, 800), collect=True)
     finally:
         r.w.close()
